@@ -160,12 +160,18 @@ def impl(op, a):
     if op == 1406:
         p, _, _ = _pdu(a)
         for o in a[5:]:
-            if o and o[0] == 0:
-                p.file_data = bytes(o[1:])
-            elif o and o[0] == 1:
-                p.segment_metadata = None
-            elif len(o) >= 2 and o[0] == 2:
-                p.segment_metadata = _meta([1] + list(o[1:]))
+            try:
+                if o and o[0] == 0:
+                    p.file_data = bytes(o[1:])
+                elif o and o[0] == 1:
+                    p.segment_metadata = None
+                elif len(o) >= 2 and o[0] == 2:
+                    p.segment_metadata = _meta([1] + list(o[1:]))
+            except ValueError:
+                if not (len(o) >= 2 and o[0] == 2 and not meta_in_domain([1] + list(o[1:]))):
+                    raise
+                # metadata no File Data PDU can carry, refused at assignment instead of at pack(): the PDU stays as it
+                # was (judged by the oracle on the views / lengths / packs below) and the rest of the history runs
         return _fields(p) + [[p.packet_len], _pack_res(p), _pack_res(p)]
     raise RuntimeError("bad op")
 
@@ -275,10 +281,20 @@ def fd_pack_expect(st):
     return out
 
 
-def fd_expect(st, l):
+def meta_in_domain(m):
+    """segment metadata the property speaks about: none, or a continuation state 0..3 with 0..63 octets"""
+    return m[0] != 1 or (len(m) - 2 <= 63 and 0 <= m[1] <= 3)
+
+
+def fd_expect3(st, l):
     """st: hd / ids / flags as in c05.hdr_expect plus off [v], data, meta ([0] | [1, state, octets...]).
-    -> (state afterwards, verdict): "ok" | "refuse" (ValueError; the returned state is what has to be there after the
-    refusal) | "attr" (Python's own AttributeError on None) | "any" """
+    -> (state after an accepted call, verdict, state after a refused call)
+    verdict: "ok" (has to be accepted) | "refuse" (ValueError; the first component is then the state after the refusal
+    too) | "attr" (Python's own AttributeError on None) | "any": the property leaves the outcome open.  For pack / the
+    read-only calls that means: no claim.  For an ASSIGNMENT it means the assigned value lies outside the property's domain
+    (metadata longer than 63 octets, a continuation state outside 0..3, an offset no width can hold, a flag outside its
+    enum): the library may store it and refuse at pack() (first component), or refuse the assignment itself with
+    ValueError and stay as it was (third component) -- what it may not do is encode the value or refuse half-way."""
     k = l[0]
     n = _cp(st)
     if k in (20, 21, 22, 23, 24, 25):
@@ -292,31 +308,37 @@ def fd_expect(st, l):
         elif k == 25: n["hd"][1] = 1 if st["meta"][0] == 1 else 0
         req = fd_required(n)
         if req > 65535:
-            return after_refusal, "refuse"
+            return after_refusal, "refuse", after_refusal
         n["hd"][2] = req
-        return n, "ok"
+        # the PDU would hold metadata no File Data PDU can carry: a setter may refuse to produce that object
+        return n, ("ok" if meta_in_domain(n["meta"]) else "any"), after_refusal
     if k in (26, 27):
         if st["meta"][0] != 1:
-            return st, "attr"
+            return st, "attr", st
         if k == 26: n["meta"] = st["meta"][:2] + list(l[1:])
         else: n["meta"][1] = l[1]
-        return n, "ok"
+        return n, ("ok" if meta_in_domain(n["meta"]) else "any"), st
     if k == 28:
-        n["off"] = [l[1]]; return n, "ok"
+        n["off"] = [l[1]]; return n, ("ok" if 0 <= l[1] < 2 ** 64 else "any"), st
     if k == 29:
-        n["data"] = list(l[1:]); return n, "ok"
+        n["data"] = list(l[1:]); return n, "ok", st
     if k == 30:
         e = fd_pack_expect(st)
-        return st, ("any" if e is None else "refuse" if e == "refuse" else "ok")
+        return st, ("any" if e is None else "refuse" if e == "refuse" else "ok"), st
     if k == 31:
         ids = st["ids"]
         if not all(h5.ubf_ok(ids[i], ids[i + 1]) for i in (0, 2, 4)):
-            return st, "any"
+            return st, "any", st
         ov = 4 + ids[1] + ids[3] + ids[5] + (len(st["meta"]) - 1 if st["meta"][0] == 1 else 0) + (8 if st["flags"][1] == 1 else 4) + (2 if st["flags"][2] == 1 else 0)
-        return st, ("refuse" if l[1] < ov else "ok")
+        return st, ("refuse" if l[1] < ov else "ok"), st
     hs, verdict = h5.hdr_expect({"hd": st["hd"], "ids": st["ids"], "flags": st["flags"]}, l)
     n["hd"], n["ids"], n["flags"] = list(hs["hd"]), list(hs["ids"]), list(hs["flags"])
-    return n, verdict
+    return n, verdict, st
+
+
+def fd_expect(st, l):
+    """(state afterwards when the call does what the unchanged library does, verdict): see fd_expect3"""
+    return fd_expect3(st, l)[:2]
 
 
 SIZES = [0, 1, 2, 3, 63, 64, 255, 256, 257, 511, 512, 513, 1023, 1024, 1025]
@@ -680,7 +702,7 @@ def check_fd_history(st, steps, ops, caller=None):
     prev_pack = None
     for i, (l, step) in enumerate(zip(ops, steps)):
         status, lines, out = step[0], step[1:6], step[6]
-        st2, verdict = fd_expect(st, l)
+        st2, verdict, st_refused = fd_expect3(st, l)
         if caller is not None and status[0] == 0:
             for k in {4: (0, 1), 5: (2,), 13: (l[1],) if len(l) > 1 else (), 14: (0, 1, 2)}.get(l[0], ()):
                 caller["shared"][k] = False
@@ -697,7 +719,10 @@ def check_fd_history(st, steps, ops, caller=None):
                     return ("C07/FileDataPdu.history/undocumented-error", "%s raised %s" % (where, core.ERR_NAMES.get(status[1], status[1])))
             elif verdict == "ok":
                 return ("C07/FileDataPdu.history/refuses-valid", "%s was refused" % where)
-            after = st2 if verdict == "refuse" else st
+            elif verdict == "any" and l[0] not in (15, 16, 30, 31) and status[1] != core.E_VALUE:
+                return ("C07/FileDataPdu.history/out-of-domain-value-error-class", "%s (a value outside the domain) was refused with %s, not with ValueError" % (
+                    where, core.ERR_NAMES.get(status[1], status[1])))
+            after = st_refused          # (for "refuse" that is st2; for a refused out-of-domain assignment: as before the call)
             r = check_fd_state(after, lines, where + " (refused)")
             if r:
                 return ("C11/FileDataPdu.setters/refused-assignment-changed-pdu", r[1])
@@ -879,6 +904,9 @@ def oracle(case, ires, sres):
         ids, flags, (mx,), meta = a
         if not (h5.ubf_ok(ids[0], ids[1]) and h5.ubf_ok(ids[2], ids[3]) and h5.ubf_ok(ids[4], ids[5])):
             return None
+        if err and code in VALUE_CODES and not (h5.valid_args(ids, flags, [1, 0, 0]) and meta_in_domain(meta if meta and meta[0] == 1 else [0])):
+            return None     # IDs of different widths / of width 0, a flag outside its enum, metadata no PDU can carry: PduConfig /
+            #                 SegmentMetadata may refuse to be built (the unchanged ones are plain records)
         ov = 4 + ids[1] + ids[3] + ids[5] + (len(meta) - 1 if meta and meta[0] == 1 else 0) + (8 if flags[1] else 4) + (2 if flags[2] else 0)
         if mx < ov:
             if not err or code not in VALUE_CODES:
